@@ -2,6 +2,11 @@
 // Every controlled thread is an external thread with its own thread_data (own context list); thread t runs its ops:
 //   bind x p   task_group_context_impl::bind_to(ctx[x], td) while the thread "runs a task of ctx[p]" (p = -: arena default ctx)
 //   cancel x   ctx[x].cancel_group_execution()      reset x   ctx[x].reset()      destroy x   r1::destroy(ctx[x])
+//   register   governor::get_thread_data() of a thread that has no thread_data yet (a thread whose FIRST op is `register` is a
+//              late thread: it does not create its thread_data in the prologue): thread_data construction (new context_list,
+//              epoch 0) + cancellation_disseminator::register_thread (push_front under my_threads_list_mutex)
+//   exit       governor::terminate_external_thread(): unregister_thread (under my_threads_list_mutex), ~thread_data ->
+//              context_list::orphan() (under the list mutex; the list lives on while it has contexts)
 // stdin:  threads N | order t.. (thread_data creation order; the registry walk order is its reverse) |
 //         op <id> <thread> <kind> <x> <p|-> <dep,dep|->   (ops of one thread run in id order after their deps completed) | go
 //         guide <thread> var=val,var=val   (optional, for mode `guide`: run <thread> until all conditions hold, then the next guide)
@@ -35,7 +40,22 @@ static const int MAXC = 64, MAXOPS = 256, MAXT = 8;
 static int g_N = 0;
 static std::vector<int> g_order;
 static std::vector<OpRec> g_ops;
-static bool g_has_reset = false;
+// logical op times: a counter that ticks at every op begin and end (one controlled thread runs at a time, so the order of
+// the ticks is the real order of the calls); tb/te of an op that never ran stay 0
+static long g_clock = 0;
+static long g_tb[256], g_te[256];
+// dynamic registry: when a thread created its thread_data / exited (logical times), and how many live contexts its list holds
+static bool g_late[8], g_exited[8];
+static long g_regtime[8], g_exittime[8];
+static int g_count[8];
+// time-scoped names for the per-thread context-list words: a list is freed when its orphaned owner's last context goes, and the
+// address may be reused, so these names are switched on/off by notes in the event log and resolved in log order
+struct NameEv { const void* addr; std::string name; bool on; };
+static std::vector<NameEv> g_nameevs;
+static void scoped_name(const volatile void* addr, const std::string& name, bool on) {
+    g_nameevs.push_back(NameEv{(const void*)addr, name, on});
+    verif::note("nm", (uint64_t)(g_nameevs.size() - 1), 0);
+}
 
 alignas(128) static char g_store[MAXC][(sizeof(Ctx) + 127) / 128 * 128];
 static bool g_alive[MAXC], g_used[MAXC];
@@ -84,24 +104,53 @@ static void name_globals(r1::thread_data* td) {
     verif::name_addr(&dis->my_threads_list_mutex.my_flag.my_atomic, "regmx");
 }
 
-static void do_op(const OpRec& o, r1::thread_data* td) {
+static void adopt_thread_data(int t, r1::thread_data* td) {
+    g_td[t] = td; g_cl[t] = td->my_context_list; g_regtime[t] = ++g_clock;
+    scoped_name(&td->my_context_list->epoch, "ep" + S(t), true);
+    scoped_name(&td->my_context_list->m_mutex.my_flag.my_atomic, "lm" + S(t), true);
+    probe("ep" + S(t), &td->my_context_list->epoch); probe("lm" + S(t), &td->my_context_list->m_mutex.my_flag.my_atomic);
+}
+static void drop_list_names(int t) {
+    if (!g_cl[t]) return;
+    // the words live inside the context_list object; g_cl[t] is only used as an address here
+    scoped_name(&g_cl[t]->epoch, "ep" + S(t), false);
+    scoped_name(&g_cl[t]->m_mutex.my_flag.my_atomic, "lm" + S(t), false);
+    g_probe.erase("ep" + S(t)); g_probe.erase("lm" + S(t));
+}
+
+static void do_op(const OpRec& o, r1::thread_data*& td) {
+    g_tb[o.id] = ++g_clock;
     verif::note("opb", (uint64_t)o.id, 0);
     int res = -1;
-    if (o.kind == "bind") {
+    if (o.kind == "register") {
+        td = r1::governor::get_thread_data();
+        adopt_thread_data(o.th, td);
+    } else if (o.kind == "exit") {
+        g_exittime[o.th] = g_tb[o.id];                         // from here on the thread may already be out of the registry
+        r1::governor::terminate_external_thread();
+        td = nullptr; g_exited[o.th] = true;
+        if (g_count[o.th] == 0) drop_list_names(o.th);       // an empty orphaned list is freed at once
+    } else if (o.kind == "bind") {
         auto* disp = td->my_task_dispatcher;
         Ctx* old = disp->m_execute_data_ext.context;
         disp->m_execute_data_ext.context = o.p >= 0 ? C(o.p) : td->my_arena->my_default_ctx;
+        bool had_list = C(o.x)->my_context_list != nullptr;
         r1::task_group_context_impl::bind_to(*C(o.x), td);
         disp->m_execute_data_ext.context = old;
+        if (!had_list && C(o.x)->my_context_list == td->my_context_list) g_count[o.th]++;
     } else if (o.kind == "cancel") {
         res = r1::cancel_group_execution(*C(o.x)) ? 1 : 0;
     } else if (o.kind == "reset") {
         r1::reset(*C(o.x));
     } else if (o.kind == "destroy") {
+        int owner = -1;
+        for (int k = 0; k < g_N; ++k) if (C(o.x)->my_context_list && C(o.x)->my_context_list == g_cl[k]) owner = k;
         r1::destroy(*C(o.x));
         g_alive[o.x] = false;
+        if (owner >= 0 && --g_count[owner] == 0 && g_exited[owner]) drop_list_names(owner);   // last context of an orphaned list: list freed
     }
     g_result[o.id] = res;
+    g_te[o.id] = ++g_clock;
     verif::note("ope", (uint64_t)o.id, (uint64_t)(res + 1));
 }
 
@@ -109,12 +158,12 @@ static void thread_body(int t) {
     int pos = 0;
     for (size_t i = 0; i < g_order.size(); ++i) if (g_order[i] == t) pos = (int)i;
     while (g_turn.load() != pos) _mm_pause();
-    r1::thread_data* td = r1::governor::get_thread_data();
-    g_td[t] = td; g_cl[t] = td->my_context_list;
-    verif::name_addr(&td->my_context_list->epoch, "ep" + S(t));
-    verif::name_addr(&td->my_context_list->m_mutex.my_flag.my_atomic, "lm" + S(t));
-    probe("ep" + S(t), &td->my_context_list->epoch); probe("lm" + S(t), &td->my_context_list->m_mutex.my_flag.my_atomic);
-    if (pos == 0) name_globals(td);
+    r1::thread_data* td = nullptr;
+    if (!g_late[t]) {
+        td = r1::governor::get_thread_data();
+        adopt_thread_data(t, td);
+        if (t == 0) name_globals(td);
+    }
     g_turn.fetch_add(1);
     while (g_turn.load() < g_N) _mm_pause();
     verif::note("phase", 1, 0);
@@ -128,12 +177,12 @@ static void thread_body(int t) {
     g_finished.fetch_add(1);
     while (g_finished.load() < g_N) _mm_pause();
     if (t == 0) {
-        // registry order as the propagator walks it
+        // registry order as the propagator walks it (threads that are registered now)
         auto* dis = td->my_arena->my_threading_control->my_pimpl->my_cancellation_disseminator.get();
         g_registry.clear();
         for (auto& thr : dis->my_threads_list) {
             int who = -1;
-            for (int k = 0; k < g_N; ++k) if (g_td[k] == &thr) who = k;
+            for (int k = 0; k < g_N; ++k) if (!g_exited[k] && g_td[k] == &thr) who = k;
             g_registry.push_back(who);
         }
         g_finished.fetch_add(1);
@@ -149,15 +198,37 @@ static int idx_of(const Ctx* p) {
     return (int)((a - g_store[0]) / sizeof(g_store[0]));
 }
 
-// implementation-side property monitors at quiescence
+// implementation-side property monitors at quiescence (independent of the Lean model).
+// They are sound for programs that respect the documented precondition of reset(): a reset of x does not overlap any other
+// operation on x or on a context bound beneath x (cancellations of proper ancestors MAY overlap it).  The scenario
+// generators only produce such programs, and the model's `misuse` flag re-checks it on every replayed run.
+//   tb/te = logical begin/end time of an op.  For a context x:  lastResetEnd(x), lastResetBegin(x) over its reset ops.
+//   single-winner  between two winning cancels of x there is a reset of x
+//   sticky         a cancel call on x (whatever it returned) after which x was not reset  =>  x is cancelled at the end
+//   reach          winning cancel c on a, x bound beneath a (final parent chain), must(x,c)  =>  x is cancelled at the end
+//                    must(a,c) = a not reset after c began
+//                    must(x,c) = x not reset after c began  and  (x's binding completed before c began  or  must(parent x, c))
+//   overreach      x cancelled at the end  =>  a cancel call on x or on an ancestor returned true and either ended after x's
+//                    last reset began, or x's binding completed after x's last reset began (x copied the flag when bound)
 static std::string monitors(std::vector<std::string>& table) {
-    std::string err;
+    std::string err, orphan_err;
     auto fail = [&](const std::string& m) { if (err.empty()) err = m; };
+    auto fail_orphan = [&](const std::string& m) { if (orphan_err.empty()) orphan_err = m; };   // reported only if nothing else failed
     std::map<int, int> wins, resets, calls;
+    std::map<int, long> lastResetEnd, lastResetBegin, bindEnd;
+    std::map<int, std::vector<const OpRec*>> winners, cancels, resetOps;
     for (const OpRec& o : g_ops) {
-        if (o.kind == "cancel") { calls[o.x]++; if (g_result[o.id] == 1) wins[o.x]++; }
-        if (o.kind == "reset") resets[o.x]++;
+        if (g_te[o.id] == 0) continue;                      // never ran (cannot happen at quiescence)
+        if (o.kind == "cancel") { calls[o.x]++; cancels[o.x].push_back(&o); if (g_result[o.id] == 1) { wins[o.x]++; winners[o.x].push_back(&o); } }
+        if (o.kind == "reset") {
+            resets[o.x]++; resetOps[o.x].push_back(&o);
+            lastResetEnd[o.x] = std::max(lastResetEnd.count(o.x) ? lastResetEnd[o.x] : 0L, g_te[o.id]);
+            lastResetBegin[o.x] = std::max(lastResetBegin.count(o.x) ? lastResetBegin[o.x] : 0L, g_tb[o.id]);
+        }
+        if (o.kind == "bind") { if (!bindEnd.count(o.x) || g_te[o.id] < bindEnd[o.x]) bindEnd[o.x] = g_te[o.id]; }
     }
+    auto noResetAfter = [&](int x, long t) { return !lastResetEnd.count(x) || lastResetEnd[x] < t; };
+    auto parent = [&](int x) { return g_alive[x] ? idx_of(C(x)->my_parent) : -1; };
     for (int x = 0; x < MAXC; ++x) {
         if (!g_used[x]) continue;
         if (!g_alive[x]) { table.push_back("ctx " + S(x) + " 4 - - - -"); continue; }
@@ -169,22 +240,61 @@ static std::string monitors(std::vector<std::string>& table) {
         int lst = -1;
         for (int k = 0; k < g_N; ++k) if (c->my_context_list && c->my_context_list == g_cl[k]) lst = k;
         table.push_back("ctx " + S(x) + " " + S(st) + " " + S(can) + " " + S(mhc) + " " + (par >= 0 ? S(par) : std::string("-")) + " " + (lst >= 0 ? S(lst) : std::string("-")));
+        // single winner
         if (wins[x] > 1 + resets[x])
             fail("VIOLATION single-winner: " + S(wins[x]) + " cancel_group_execution calls on context " + S(x) + " returned true (resets: " + S(resets[x]) + ")");
-        if (calls[x] > 0 && resets[x] == 0 && !can)
-            fail("VIOLATION sticky: cancel_group_execution was called on context " + S(x) + " (" + S(wins[x]) + " returned true), it was never reset, and it is not cancelled at quiescence");
+        for (const OpRec* c1 : winners[x]) for (const OpRec* c2 : winners[x]) {
+            if (c1 == c2 || g_tb[c1->id] > g_tb[c2->id]) continue;
+            bool between = false;
+            for (const OpRec* r : resetOps[x]) if (g_tb[r->id] > g_tb[c1->id] && g_te[r->id] < g_te[c2->id]) between = true;
+            if (!between)
+                fail("VIOLATION single-winner: cancel ops " + S(c1->id) + " and " + S(c2->id) + " on context " + S(x) + " both returned true and the context was not reset in between");
+        }
+        // sticky
+        for (const OpRec* cc : cancels[x])
+            if (noResetAfter(x, g_tb[cc->id]) && !can)
+                fail("VIOLATION sticky: cancel_group_execution (op " + S(cc->id) + ", returned " + S(g_result[cc->id]) + ") was called on context " + S(x) + ", the context was not reset afterwards, and it is not cancelled at quiescence");
+        // overreach
         if (can) {
             bool justified = false;
-            for (int a = x, n = 0; a >= 0 && n < MAXC; ++n) { if (wins[a] > 0) justified = true; a = g_alive[a] ? idx_of(C(a)->my_parent) : -1; }
-            if (!justified) fail("VIOLATION overreach: context " + S(x) + " is cancelled although no cancel call on it or on any of its ancestors returned true");
+            long lrb = lastResetBegin.count(x) ? lastResetBegin[x] : -1;
+            bool boundAfterReset = bindEnd.count(x) && bindEnd[x] > lrb;
+            for (int a = x, n = 0; a >= 0 && n < MAXC; ++n) {
+                for (const OpRec* w : winners[a]) {
+                    if (g_te[w->id] > lrb) justified = true;
+                    if (a != x && boundAfterReset && g_tb[w->id] < bindEnd[x]) justified = true;
+                }
+                a = parent(a);
+            }
+            if (!justified) fail("VIOLATION overreach: context " + S(x) + " is cancelled at quiescence although no cancel call on it or on any of its ancestors returned true after its last reset (" + S(resets[x]) + " resets)");
         }
-        if (!g_has_reset && st == (int)Ctx::state::bound && par >= 0 && g_alive[par]) {
-            int pcan = (int)C(par)->my_cancellation_requested.load(std::memory_order_relaxed);
-            if (pcan && !can)
-                fail("VIOLATION reach: context " + S(x) + " is bound beneath cancelled context " + S(par) + " and is not cancelled at quiescence (no cancel or bind in flight)");
+        // reach
+        if (st == (int)Ctx::state::bound && !can) {
+            // walk up: `fresh` = no context on the path so far (x ... below a) was reset after c began, as long as none of them
+            // was bound before c began; once a context bound before c is met, the contexts above it no longer matter
+            for (int a = parent(x), n = 0; a >= 0 && n < MAXC; a = parent(a), ++n) {
+                for (const OpRec* w : winners[a]) {
+                    long tc = g_tb[w->id];
+                    if (!noResetAfter(a, tc)) continue;            // a itself was reset after c: no claim through c
+                    bool must = true, orphan = false;
+                    for (int z = x, k = 0; z != a && z >= 0 && k < MAXC; z = parent(z), ++k) {
+                        if (!noResetAfter(z, tc)) { must = false; break; }
+                        // the thread whose context list holds z began to exit before c ended: the propagator may not have walked its list
+                        for (int q = 0; q < g_N; ++q) if (g_alive[z] && C(z)->my_context_list == g_cl[q] && g_exited[q] && g_exittime[q] < g_te[w->id]) orphan = true;
+                        if (bindEnd.count(z) && bindEnd[z] < tc) break;      // z was bound before c: c's walk paints it directly
+                    }
+                    if (must && orphan)
+                        fail_orphan("VIOLATION reach-orphan: context " + S(x) + " is bound beneath context " + S(a) + ", cancel op " + S(w->id) + " on " + S(a) +
+                             " returned true, nothing on the path was reset afterwards, and " + S(x) + " is not cancelled at quiescence: it (or a context it inherits through) is registered in the "
+                             "context list of a thread that has exited (orphaned list: the propagation walks the lists of registered threads only)");
+                    else if (must)
+                        fail("VIOLATION reach: context " + S(x) + " is bound beneath context " + S(a) + ", cancel op " + S(w->id) + " on " + S(a) +
+                             " returned true, neither " + S(x) + " nor a context it inherited the flag through was reset after that call began, and " + S(x) + " is not cancelled at quiescence (no cancel or bind in flight)");
+                }
+            }
         }
     }
-    return err;
+    return err.empty() ? orphan_err : err;
 }
 
 static int g_flags = 0;
@@ -192,9 +302,14 @@ static int g_flags = 0;
 static bool run_once(verif::Schedule& sch, long run_idx, bool print_all) {
     verif::clear_names(); g_probe.clear();
     g_turn.store(0); g_finished.store(0); g_ext_done.store(0);
-    for (int i = 0; i < MAXOPS; ++i) { g_done[i].store(0); g_result[i] = -1; }
+    for (int i = 0; i < MAXOPS; ++i) { g_done[i].store(0); g_result[i] = -1; g_tb[i] = 0; g_te[i] = 0; }
+    g_clock = 0;
     for (int i = 0; i < MAXC; ++i) { g_alive[i] = false; g_used[i] = false; }
-    for (const OpRec& o : g_ops) { g_used[o.x] = true; if (o.p >= 0) g_used[o.p] = true; }
+    for (int t = 0; t < MAXT; ++t) { g_late[t] = false; g_exited[t] = false; g_regtime[t] = 0; g_exittime[t] = 0; g_count[t] = 0; g_td[t] = nullptr; g_cl[t] = nullptr; }
+    g_nameevs.clear();
+    { bool seen[MAXT] = {false};
+      for (const OpRec& o : g_ops) { if (!seen[o.th]) { seen[o.th] = true; g_late[o.th] = (o.kind == "register"); } } }
+    for (const OpRec& o : g_ops) { if (o.kind == "register" || o.kind == "exit") continue; g_used[o.x] = true; if (o.p >= 0) g_used[o.p] = true; }
     for (int x = 0; x < MAXC; ++x) if (g_used[x]) {
         new (g_store[x]) Ctx(Ctx::bound);
         g_alive[x] = true;
@@ -222,12 +337,47 @@ static bool run_once(verif::Schedule& sch, long run_idx, bool print_all) {
     verif::Result r = verif::run(bodies, sch, 4000000);
     std::vector<std::string> table;
     std::string err = r.deadlock ? std::string("DEADLOCK every live thread parked (or step limit)") : monitors(table);
+    // the static walk order of the model: every thread that ever had a thread_data, newest first (push_front)
+    // (registration order = order of the threads' first acquisitions of my_threads_list_mutex: register_thread is the first thing
+    // a thread does under that mutex)
+    std::vector<int> reg_all;
+    { bool seen[MAXT] = {false};
+      for (const verif::Event& e : r.log) {
+          if (e.kind == verif::K_NOTE || !e.addr || e.tid < 0 || e.tid >= g_N || seen[e.tid]) continue;
+          if (std::string(verif::kind_name(e.kind)) == "xchg" && e.a == 0 && e.b == 1 && verif::addr_name(e.addr) == "regmx") { seen[e.tid] = true; reg_all.insert(reg_all.begin(), e.tid); }
+      }
+      for (int k = 0; k < g_N; ++k) if (g_regtime[k] > 0 && !seen[k]) reg_all.push_back(k); }
+    { std::vector<int> now; for (int w : reg_all) if (!g_exited[w]) now.push_back(w);
+      if (!r.deadlock && now != g_registry && err.empty())
+          err = "VIOLATION harness: the registry read back from the disseminator is not the threads registered and not exited, newest first"; }
     bool ok = err.empty();
     if (print_all || !ok) {
         printf("run %ld\n", run_idx);
-        printf("reg"); for (int w : g_registry) printf(" %d", w); printf("\n");
+        printf("reg"); for (int w : reg_all) printf(" %d", w); printf("\n");
+        for (int k = 0; k < g_N; ++k) printf("thr %d %d %d\n", k, g_regtime[k] > 0 ? 1 : 0, g_exited[k] ? 1 : 0);
         std::vector<int> phase(64, 0);
-        for (const verif::Event& e : r.log) {
+        std::map<const void*, std::string> scoped;
+        // a thread can only name the words of its context list after get_thread_data() has returned, but the list is in the registry
+        // (and may be walked by a propagator) from the thread's register_thread on: a name switched on by a note takes effect at the
+        // thread's first acquisition of my_threads_list_mutex
+        std::map<size_t, std::vector<size_t>> name_at;       // log index -> name events that take effect there
+        { std::map<int, size_t> first_reg;
+          for (size_t i = 0; i < r.log.size(); ++i) {
+              const verif::Event& e = r.log[i];
+              if (e.kind == verif::K_NOTE || !e.addr || first_reg.count(e.tid)) continue;
+              if (std::string(verif::kind_name(e.kind)) == "xchg" && e.a == 0 && e.b == 1 && verif::addr_name(e.addr) == "regmx") first_reg[e.tid] = i;
+          }
+          for (size_t i = 0; i < r.log.size(); ++i) {
+              const verif::Event& e = r.log[i];
+              if (e.kind != verif::K_NOTE || std::string(e.tag ? e.tag : "") != "nm" || e.a >= g_nameevs.size()) continue;
+              size_t at = i;
+              if (g_nameevs[e.a].on && first_reg.count(e.tid) && first_reg[e.tid] < i) at = first_reg[e.tid];
+              name_at[at].push_back((size_t)e.a);
+          } }
+        for (size_t li = 0; li < r.log.size(); ++li) {
+            const verif::Event& e = r.log[li];
+            { auto it = name_at.find(li);
+              if (it != name_at.end()) for (size_t k : it->second) { const NameEv& n = g_nameevs[k]; if (n.on) scoped[n.addr] = n.name; else scoped.erase(n.addr); } }
             if (e.tid < 0 || e.tid >= 64) continue;
             if (e.kind == verif::K_NOTE) {
                 std::string tag = e.tag ? e.tag : "";
@@ -236,7 +386,8 @@ static bool run_once(verif::Schedule& sch, long run_idx, bool print_all) {
                 continue;
             }
             if (phase[e.tid] != 1 || !e.addr) continue;
-            std::string nm = verif::addr_name(e.addr);
+            auto sit = scoped.find(e.addr);
+            std::string nm = sit != scoped.end() ? sit->second : verif::addr_name(e.addr);
             if (nm.compare(0, 4, "anon") == 0) continue;
             printf("e %d %s %s %llu %llu %d\n", e.tid, verif::kind_name(e.kind), nm.c_str(), (unsigned long long)e.a, (unsigned long long)e.b, e.ok);
         }
@@ -263,9 +414,9 @@ int main(int argc, char** argv) {
         else if (w == "order") { int t; g_order.clear(); while (is >> t) g_order.push_back(t); }
         else if (w == "op") {
             OpRec o; std::string p, deps; is >> o.id >> o.th >> o.kind >> o.x >> p >> deps;
+            if ((o.kind == "register" || o.kind == "exit") && o.th == 0) { printf("bad-op\n"); return 2; }   // thread 0 owns the scheduler handle
             o.p = (p == "-") ? -1 : atoi(p.c_str());
             if (deps != "-") { std::istringstream ds(deps); std::string d; while (std::getline(ds, d, ',')) o.deps.push_back(atoi(d.c_str())); }
-            if (o.kind == "reset") g_has_reset = true;
             if (o.id < 0 || o.id >= MAXOPS || o.x < 0 || o.x >= MAXC || o.p >= MAXC || o.th < 0 || o.th >= MAXT) { printf("bad-op\n"); return 2; }
             g_ops.push_back(o);
         } else if (w == "guide") {
